@@ -14,7 +14,6 @@ use concordium_wasm::{
     utils::parse_artifact,
 };
 use vmon_core::{json, ChildCtx, Shard};
-use wasmref::ast::*;
 
 const AMPLE: u64 = 1 << 40;
 
